@@ -184,7 +184,7 @@ pub fn check(p: &Prog, rep: &mut Report) {
 pub fn space(thorough: bool) -> Vec<Prog> {
     let (env, tys) = pc_types();
     let mut out = vec![];
-    let entry_sets: Vec<Vec<Stage>> = (1..8usize).map(|m| Stage::ALL.iter().copied().enumerate().filter(|(i, _)| m & (1 << i) != 0).map(|(_, s)| s).collect()).collect();
+    let entry_sets: Vec<Vec<Stage>> = (0..8usize).map(|m| Stage::ALL.iter().copied().enumerate().filter(|(i, _)| m & (1 << i) != 0).map(|(_, s)| s).collect()).collect();
     let group_choices: &[u32] = if thorough { &[0, 1, 3] } else { &[0, 2] };
     for (ti, t) in tys.iter().enumerate() {
         for es in &entry_sets {
@@ -270,7 +270,18 @@ pub fn space(thorough: bool) -> Vec<Prog> {
 
 pub fn run(tier: &str) -> i32 {
     let mut rep = Report::new("C13", tier);
-    let progs = space(true);
+    let mut progs = space(true);
+    // module-scope declaration order is not significant: reversed / functions-first variants (every 4th in quick)
+    let n0 = progs.len();
+    for i in 0..n0 {
+        if tier == "thorough" || hash64(&progs[i].key) % 4 == 1 {
+            for how in ["reverse", "entries-first"] {
+                if let Some(src) = reorder_decls(&progs[i].src, how) {
+                    progs.push(Prog { key: format!("{}|decl-order={how}", progs[i].key), src, expect: progs[i].expect, groups: progs[i].groups });
+                }
+            }
+        }
+    }
     let results = par_map(&progs, |p| {
         let mut r = Report::new("C13", tier);
         check(p, &mut r);
